@@ -37,6 +37,7 @@ let str_field (f : string) : char list = unhex (String.sub f 1 (String.length f 
 let list_field (f : string) : string list = if f = "-" then [] else String.split_on_char ',' f
 let strs_field f = List.map str_field (list_field f)
 
+let ob = function Some true -> "1" | Some false -> "0" | None -> "E"
 let status_str = function
   | C12Ok -> "ok" | C12RangeError -> "RangeError" | C12ParserError -> "ParameterTreeParserError"
   | C12HelpRequest -> "HelpRequest" | C12OutOfFuel -> "OUTOFFUEL"
@@ -90,11 +91,37 @@ let items_field (f : string) : c12_sline list =
                           Array.to_list (Array.sub fs 8 (Array.length fs - 8)), fs.(6), fs.(7))
     | _ -> failwith "bad item") (list_field f)
 
-let ob = function Some true -> "1" | Some false -> "0" | None -> "E"
 let query (t : c12_tree) (k : c12_str) : string =
   let p = c12_path k in
   Printf.sprintf "h%ss%sg%s" (ob (c12_has_key t p)) (ob (c12_has_sub t p))
     (match c12_get_default t p (explode "DFLT") with Some v -> "x" ^ hex v | None -> "E")
+
+let dotted (p : c12_str list) : c12_str = List.concat (List.mapi (fun i s -> if i = 0 then s else '.' :: s) p)
+let report_text (t : c12_tree) (pfx : c12_str) : string =
+  hex (List.concat_map (fun l -> l @ ['\n']) (c12_report_lines t pfx))
+let counts (s : c12_tree) = Printf.sprintf "{%d,%d}" (List.length (c12_vals s)) (List.length (c12_subs s))
+(* the remaining public members, as harness/C12/impl.cc fullApi *)
+let full_api (t : c12_tree) (qs : c12_str list) : string =
+  let b = Buffer.create 256 in
+  List.iteri (fun i k -> if i < 3 then begin
+    let p = c12_path k in
+    Buffer.add_string b " c";
+    Buffer.add_string b (match c12_get_default t p (explode "DFLT") with Some v -> "x" ^ hex v | None -> "E");
+    Buffer.add_string b "o"; Buffer.add_string b (match c12_lookup t p with Some v -> "x" ^ hex v | None -> "E");
+    Buffer.add_string b "T"; Buffer.add_string b (match c12_sub_const t p true with Some s -> counts s | None -> "E");
+    Buffer.add_string b "F"; Buffer.add_string b (match c12_sub_const t p false with Some s -> counts s | None -> "E");
+    let (t', ok) = c12_sub_mut t p in
+    Buffer.add_string b "M";
+    Buffer.add_string b (if ok then string_of_int (List.length (c12_vals (c12_node t' p))) else "E");
+    Buffer.add_string b (ob (c12_has_sub t' p)); Buffer.add_char b '#';
+    Buffer.add_string b (string_of_int (List.length (c12_subs t'))) end) qs;
+  Buffer.add_string b (" R=" ^ report_text t (explode "P:"));
+  (match qs with
+   | k :: _ -> Buffer.add_string b (" r=" ^ (match c12_sub_const t (c12_path k) false with
+                                              | Some s -> report_text s (k @ ['.']) | None -> "E"))
+   | [] -> ());
+  Buffer.add_string b " C=ok";
+  Buffer.contents b
 
 let tree_of_predoc_v (qh : bool) (f : string) : c12_tree = (c12_parse_ini qh (str_field f) c12_empty true).c12_ir_tree
 (* for readNamedOptions the pre-filled tree is written without quotes: both variants agree *)
@@ -106,11 +133,16 @@ let okz = function Some v -> "OK " ^ string_of_z v | None -> exc
 let okl = function Some l -> "OK " ^ zlist l | None -> exc
 let bits l = String.concat "" (List.map (fun b -> if b then "1" else "0") l)
 
+(* exact decimal of a modelled double: d:<sign>:<mantissa>:<exponent of 10> (rounded by the check) *)
+let dec ((neg, m), e) = Printf.sprintf "d:%s:%s:%s" (if neg then "-" else "+") (string_of_z m) (string_of_z e)
+
 let ity_bounds = function
   | C12Int -> (z_of_string "-2147483648", z_of_string "2147483647")
   | C12Long -> (z_of_string "-9223372036854775808", z_of_string "9223372036854775807")
   | C12UInt -> (Z0, z_of_string "4294967295")
   | C12ULong -> (Z0, z_of_string "18446744073709551615")
+  | C12Short -> (z_of_string "-32768", z_of_string "32767")
+  | C12UShort -> (Z0, z_of_string "65535")
 
 let verdict_l = function C12Accept l -> "OK " ^ zlist l | C12Reject -> exc | C12Unspecified -> "?"
 
@@ -122,7 +154,7 @@ let get_case (ty : string) (v : c12_str) : string * string =
   let scalar it =
     let (lo, hi) = ity_bounds it in
     let spec = match it with
-      | C12Int | C12Long -> okz (c12_spec_int lo hi v)
+      | C12Int | C12Long | C12Short -> okz (c12_spec_int lo hi v)
       | _ -> (* unsigned: a leading '-' wraps (modelled library behaviour, not claimed) *)
         if List.mem '-' v then "?" else okz (c12_spec_int lo hi v) in
     okz (via_tree (c12_parse_scalar (c12_ity_extract it)) v), spec in
@@ -150,6 +182,50 @@ let get_case (ty : string) (v : c12_str) : string * string =
                (let toks = c12_spec_tokens_ws v in
                 if List.length toks <> 4 then exc
                 else match c12_all_some c12_spec_bool toks with Some l -> "OK " ^ bits l | None -> exc)
+  | "short" -> scalar C12Short | "ushort" -> scalar C12UShort
+  | "bits1" | "bits8" | "bits0" ->
+      let n = int_of_string (String.sub ty 4 1) in
+      (match via_tree (c12_parse_bitset (nat_of_int n)) v with Some l -> "OK " ^ bits l | None -> exc),
+      (let toks = c12_spec_tokens_ws v in
+       if List.length toks <> n then exc
+       else match c12_all_some c12_spec_bool toks with Some l -> "OK " ^ bits l | None -> exc)
+  | "arr0" -> range C12Int 0 | "arr2" -> range C12Int 2 | "fv3" -> range C12Int 3 | "fv1l" -> range C12Long 1
+  | "vecu" -> okl (via_tree (c12_parse_vector (c12_ity_extract C12UInt)) v), "?"
+  | "vecl" -> let (lo, hi) = ity_bounds C12Long in
+              okl (via_tree (c12_parse_vector (c12_ity_extract C12Long)) v),
+              okl (c12_all_some (c12_spec_int lo hi) (c12_spec_tokens_ws v))
+  | "vecb" -> (match via_tree (fun s -> c12_all_some c12_parse_bool (c12_split s)) v with
+               | Some l -> "OK [" ^ String.concat "," (List.map (fun b -> if b then "1" else "0") l) ^ "]" | None -> exc),
+              (match c12_all_some c12_spec_bool (c12_spec_tokens_ws v) with
+               | Some l -> "OK [" ^ String.concat "," (List.map (fun b -> if b then "1" else "0") l) ^ "]" | None -> exc)
+  | "char" -> (match via_tree (c12_parse_scalar c12_extract_char) v with Some c -> "OK x" ^ hex [c] | None -> exc), "?"
+  | "arrs2" -> (match via_tree (c12_parse_range true c12_extract_word (nat_of_int 2)) v with
+                | Some l -> "OK [" ^ String.concat "," (List.map (fun s -> "x" ^ hex s) l) ^ "]" | None -> exc),
+               (let toks = c12_spec_tokens v in
+                if List.length toks = 2 then "OK [" ^ String.concat "," (List.map (fun s -> "x" ^ hex s) toks) ^ "]" else exc)
+  | "dbl" -> (match via_tree (c12_parse_scalar c12_extract_double) v with Some d -> "OK " ^ dec d | None -> exc), "?"
+  | "fv2d" -> (match via_tree (c12_parse_range true c12_extract_double (nat_of_int 2)) v with
+               | Some l -> "OK [" ^ String.concat "," (List.map dec l) ^ "]" | None -> exc), "?"
+  | "vecd" -> (match via_tree (c12_parse_vector c12_extract_double) v with
+               | Some l -> "OK [" ^ String.concat "," (List.map dec l) ^ "]" | None -> exc), "?"
+  | "boolor0" | "boolor1" | "longor0" | "longor1" | "stror0" | "stror1" | "cstror0" | "cstror1" | "vecor0" | "vecor1" ->
+      let present = ty.[String.length ty - 1] = '1' in
+      let t0 = if present then fst (c12_set c12_empty [explode "k"] v) else c12_empty in
+      let base = String.sub ty 0 (String.length ty - 3) in
+      let p = [explode "k"] in
+      let (lo, hi) = ity_bounds C12Long in
+      (match base with
+       | "bool" -> (match c12_get_or c12_parse_bool t0 p true with Some b -> "OK " ^ bits [b] | None -> exc),
+                   (if present then (match c12_spec_bool v with Some b -> "OK " ^ bits [b] | None -> exc) else "OK 1")
+       | "long" -> okz (c12_get_or (c12_parse_scalar (c12_ity_extract C12Long)) t0 p (z_of_int 77)),
+                   (if present then okz (c12_spec_int lo hi v) else "OK 77")
+       | "str" | "cstr" ->
+           (* the non-template overloads return the stored string as it is (no trimming) *)
+           (match c12_get_default t0 p (explode "DFLT") with Some s -> "OK x" ^ hex s | None -> exc),
+           (if present then "OK x" ^ hex v else "OK x" ^ hex (explode "DFLT"))
+       | _ -> let (li, hi2) = ity_bounds C12Int in
+              okl (c12_get_or (c12_parse_vector (c12_ity_extract C12Int)) t0 p [z_of_int 7; z_of_int 8]),
+              (if present then okl (c12_all_some (c12_spec_int li hi2) (c12_spec_tokens_ws v)) else "OK [7,8]"))
   | "intor0" -> (* get("k", 77) with k absent *)
       okz (c12_get_or (c12_parse_scalar (c12_ity_extract C12Int)) c12_empty [explode "k"] (z_of_int 77)), "OK 77"
   | "intor1" -> (* get("k", 77) with k present *)
@@ -161,14 +237,16 @@ let get_case (ty : string) (v : c12_str) : string * string =
 let do_case (line : string) : string =
   let t = Array.of_list (String.split_on_char ' ' (String.trim line)) in
   match t.(0) with
-  | "ini" ->
+  | "nofile" -> "IOError IOError {|} | IOError IOError {|}"
+  | "ini" | "inif" ->
     let ow = t.(1) = "1" in
     let pre = tree_of_predoc_v true t.(2) in
     (* model observation for both variants of the comment search (as found / with fixes/C12-3.patch) *)
     let obs qh =
       let r = c12_parse_ini qh (str_field t.(3)) (tree_of_predoc_v qh t.(2)) ow in
       let qs = String.concat "," (List.map (query r.c12_ir_tree) (strs_field t.(4))) in
-      Printf.sprintf "%s %s Q:%s" (status_str r.c12_ir_status) (dump r.c12_ir_tree) qs in
+      Printf.sprintf "%s %s Q:%s%s" (status_str r.c12_ir_status) (dump r.c12_ir_tree) qs
+        (if t.(0) = "inif" then full_api r.c12_ir_tree (strs_field t.(4)) ^ " ov=ok" else "") in
     let r = c12_parse_ini true (str_field t.(3)) pre ow in
     let m = let a = obs false and b = obs true in if a = b then a else a ^ " ~ " ^ b in
     let spec =
